@@ -180,6 +180,14 @@ def run(ctx):
     dspecs += [{"kind": "positional", "delta": 1.0},
                {"kind": "combined", "alpha": 1.0, "beta": 1.0, "delta": 1.0, "pos": None, "cat": None}]
     names = list(TRANSFORMS)
+    for i in range(3):       # delta scaling with gamma first, whatever the time budget (deciding monitor)
+        cs0 = cases.gen_continuum(rng, n_annot=2, max_units=4, allow_empty=False, labels=cases.LABELS_SMALL, family="dyadic")
+        case = {"continuum": cs0, "dissim": {"kind": "combined", "alpha": 1.0, "beta": 1.0, "delta": 1.0, "pos": None, "cat": None},
+                "transform": "delta", "family_exact": True, "t_seed": i, "gamma": True, "np_seed": 100 + i, "n_samples": 3,
+                "sampler": "statistical"}
+        ctx.begin_case(case)
+        ctx.observe("transform", "delta")
+        check_case(ctx, case)
     # dense 3x15 continua under annotator renaming only: this is where a path-dependent solver result (early stop inside
     # a gap, tie-breaking on column order) shows - about one such continuum in 40 under a 1 % gap (measured)
     dense_d = [{"kind": "combined", "alpha": 1.0, "beta": 1.0, "delta": 1.0, "pos": None, "cat": None}, {"kind": "positional", "delta": 1.0}]
